@@ -72,3 +72,13 @@ func Normalize(info *types.Info, f *ast.File) int {
 	})
 	return n
 }
+
+func unparen(e ast.Expr) ast.Expr {
+	for {
+		p, ok := e.(*ast.ParenExpr)
+		if !ok {
+			return e
+		}
+		e = p.X
+	}
+}
